@@ -3,7 +3,7 @@ from props import Prop, Stream, reg
 reg(Prop('C13', [
     Stream('c13.new', 1, 1, 'model', exhaustive='LineProgram::new for every (line_base, line_range) in -128..127 x 0..255 (65536 pairs), model outcome'),
     Stream('c13.newpre', 1, 1, 'oracle', exhaustive='the same 65536 pairs against the documented precondition line_base <= 0 < line_base + line_range'),
-    Stream('c13.grid', 4, 16, 'model', exhaustive='per LineEncoding tuple the grid line advance -300..300 x operation advance 0..600 as two-row programs: every third point in the quick tier (120401 per tuple), every point in the thorough tier (361201 per tuple); tuples over line_base -128..0, line_range 1..255, min_inst_len/max_ops in {1,2,4}'),
+    Stream('c13.grid', 3, 16, 'model', exhaustive='per LineEncoding tuple the grid line advance -300..300 x operation advance 0..600 as two-row programs: every third point in the quick tier (120401 per tuple), every point in the thorough tier (361201 per tuple); tuples over line_base -128..0, line_range 1..255, min_inst_len/max_ops in {1,2,4}'),
     Stream('c13.prog', 60000, 1500000, 'model'),
     Stream('c13.known', 20, 200, 'oracle'),
 ], clauses=[
